@@ -26,6 +26,7 @@ type Obl struct {
 	Seconds float64
 	Model   string
 	Props   []string
+	Candidate bool // Model comes from a weakened query
 }
 
 // State is the symbolic heap at a program point. Heaps absent from H are the entry heaps.
@@ -44,6 +45,7 @@ func (s *State) clone() *State {
 
 // Region is a set of cells [Lo,Hi) of object Obj (all cells when Whole), restricted to heap sorts Sorts (nil = all).
 type Region struct {
+	TypeID string // if set: all cells of all objects whose dynamic type has this id ("alltyped(T)")
 	Obj    string
 	Lo, Hi string
 	Whole  bool
@@ -187,7 +189,9 @@ func (g *Gen) obligeAt(kind, label, pos, pc, cond string) *Obl {
 	}
 	o := &Obl{Name: g.key + ":" + id, Kind: kind, Label: label, Pos: pos, Func: g.key, Prefix: len(g.cmds), Goal: goal}
 	g.obls = append(g.obls, o)
-	g.assume(goal)
+	if cond != "false" {
+		g.assume(goal)
+	}
 	return o
 }
 
@@ -335,6 +339,13 @@ func (g *Gen) havocRegion(st *State, r Region) {
 	for _, s := range sorts {
 		ht := g.heapTerm(st, s)
 		arrSort := fmt.Sprintf("(Array %s %s)", g.M.IX(), s)
+		if r.TypeID != "" {
+			fr := g.freshConst("hvt", g.L.HeapSort(s))
+			nh := g.freshConst(heapName(s), g.L.HeapSort(s))
+			g.assume(fmt.Sprintf("(forall ((o!q Int)) (! (= (select %s o!q) (ite (= (objtype o!q) %s) (select %s o!q) (select %s o!q))) :pattern ((select %s o!q))))", nh, r.TypeID, fr, ht, nh))
+			st.H[g.heapFor(s)] = nh
+			continue
+		}
 		if r.Whole {
 			fr := g.freshConst("hv", arrSort)
 			g.setHeap(st, s, app("store", ht, r.Obj, fr))
@@ -377,6 +388,9 @@ func (g *Gen) havocAll(st *State) {
 
 // inRegion: cell (obj,off) of sort lies in r
 func (g *Gen) inRegion(p string, r Region) string {
+	if r.TypeID != "" {
+		return sEq(app("objtype", pObj(p)), r.TypeID)
+	}
 	if r.Whole {
 		return sEq(pObj(p), r.Obj)
 	}
@@ -384,6 +398,15 @@ func (g *Gen) inRegion(p string, r Region) string {
 }
 
 func (g *Gen) regionSub(a, b Region) string {
+	if b.TypeID != "" {
+		if a.TypeID != "" {
+			return boolLit(a.TypeID == b.TypeID)
+		}
+		return sEq(app("objtype", a.Obj), b.TypeID)
+	}
+	if a.TypeID != "" {
+		return "false"
+	}
 	if b.Whole {
 		return sEq(a.Obj, b.Obj)
 	}
